@@ -177,11 +177,13 @@ def gen_decls(rng, cfg):
             name, ret, params = '%s_%s_new_other' % (spx, tus), other + ' *', []
         else:
             name, ret, params = '%s_%ss_%s' % (spx, tus, w), 'void', [(t + ' *', 'self')]
-        stripped = name[len(spx) + 1:]
-        # the same C name can arise from two different prefix/type splits (foo + x_new, foo_x + new): one declaration only
-        if stripped in seen or ('c:' + name) in seen:
+        # the same C name can arise from two different prefix/type splits (foo + x_new, foo_x + new): one declaration only; and
+        # two C names must not strip to the same namespace-level name under any of the symbol prefixes (foo_create and
+        # foo_x_create with prefixes foo and foo_x both become "create": the scanner stops with a namespace conflict)
+        strippings = set(name[len(p0) + 1:] for p0 in sp if name.startswith(p0 + '_')) | {name[len(spx) + 1:]}
+        if (strippings & seen) or ('c:' + name) in seen:
             continue
-        seen.add(stripped)
+        seen |= strippings
         seen.add('c:' + name)
         lines.append(apigen.render_function(name, ret, params))
         decls.append({'c': name, 'class': 'function', 'shape': shape, 'ret': ret, 'params': params, 'type': t})
